@@ -198,7 +198,8 @@ def _jobs(vectors):
         url, data, conn = render(r)
         spec, iface = SPEC[r["iface"]]
         jobs.append({"in": r, "spec": spec, "iface": iface, "rule": 0, "policy": ["archive"],
-                     "items": [{"url": url, "data": data, "conn": conn, "latest": r["latest"], "both": True, "reps": REPS}]})
+                     "items": [{"url": url, "data": data, "conn": conn, "latest": r["latest"], "both": True,
+                                "reps": 2 if r["mut"] == "deepnest" else REPS}]})
     return jobs
 
 
